@@ -33,6 +33,7 @@ echo "== demo on mutated tree"; (cd $SRC && timeout 1500 bash ./run.sh $WT) > /v
 git -C $WT status --short | head
 echo "== demo output differs?"; cmp -s /var/tmp/confirm/$TAG.demo-clean /var/tmp/confirm/$TAG.demo-mut && echo SAME || echo DIFFERENT
 for c in $CHECKS; do
+  [ -n "$SKIP_CHECK" ] && break
   echo "== check $c against mutated worktree"
   (cd /verif && VERIF_REPO=$WT timeout 3000 ./check $c --tier quick) > /var/tmp/confirm/$TAG.check-$c 2>&1; echo "check rc=$?"
   grep -a "VIOLATION\|KNOWN-FINDING" /var/tmp/confirm/$TAG.check-$c | cut -c1-400 | head -12
